@@ -57,6 +57,8 @@ class SimRandomState(np.random.RandomState):
     np.random.RandomState.__init__(self, seed)
     self.sim_seed = seed
     self.draws = []
+    self.values = []
+    self.keep_values = False
 
   def sim_digest(self):
     return "SimRS(%r)" % (self.sim_seed,)
@@ -82,6 +84,8 @@ def _mk_rec(name):
     if depth == 0:
       try:
         self.draws.append((name, _argsum(a, k), digest(out)))
+        if self.__dict__.get("keep_values"):
+          self.values.append((name, a, dict(k), np.array(out, copy=True)))
       except AttributeError:   # object rebuilt by copy/pickle without __init__
         pass
     return out
@@ -94,6 +98,47 @@ for _n in _RS_METHODS:
     setattr(SimRandomState, _n, _mk_rec(_n))
 
 
+class ScriptedRandomState(SimRandomState):
+  """A RandomState whose integer draws are chosen by the simulator: randint
+  returns in-range values following a script (degenerate but legal streams: the
+  same index every time, a short cycle, a tiny support).  Everything else stays
+  MT19937-backed."""
+
+  def __init__(self, seed=None, script="const"):
+    SimRandomState.__init__(self, seed)
+    self.script = script
+    self._k = 0
+
+  def sim_digest(self):
+    return "ScriptedRS(%r,%s)" % (self.sim_seed, self.script)
+
+  def randint(self, low, high=None, size=None, dtype=int):
+    if high is None:
+      low, high = 0, low
+    n = int(np.prod(size)) if size is not None else 1
+    span = int(high) - int(low)
+    base = int(self.sim_seed or 0)
+    if self.script == "const":
+      vals = np.full(n, base % span)
+    elif self.script == "cycle":
+      vals = (np.arange(self._k, self._k + n) + base) % span
+    elif self.script == "few":
+      support = np.array([(base + 7 * j) % span for j in range(3)])
+      vals = support[(np.arange(self._k, self._k + n) * 2654435761 % 4294967296 >> 7) % 3]
+    elif self.script == "rowconst":     # every mini-batch is one triplet repeated
+      cols = size[-1] if isinstance(size, tuple) and len(size) > 1 else 1
+      vals = np.repeat((np.arange(-(-n // cols)) * 5 + base) % span, cols)[:n]
+    else:
+      raise ValueError(self.script)
+    self._k += n
+    out = (vals + int(low)).astype(dtype)
+    out = out.reshape(size) if size is not None else out[0]
+    self.draws.append(("randint", _argsum((low, high), dict(size=size)), digest(out)))
+    if self.keep_values:
+      self.values.append(("randint", (low, high), dict(size=size), np.array(out, copy=True)))
+    return out
+
+
 class DrawObserver(object):
   """Observes integer-seeded fits: wraps the module-level check_random_state
   names so that the RandomState created from an int seed is a recording one.
@@ -102,10 +147,11 @@ class DrawObserver(object):
   MODULES = ("metric_learn._util", "metric_learn.constraints",
              "metric_learn.scml")
 
-  def __init__(self):
+  def __init__(self, keep_values=False):
     self.created = []
     self.saved = []
     self.missing = []
+    self.keep_values = keep_values
 
   def _wrap(self, orig):
     obs = self
@@ -113,6 +159,7 @@ class DrawObserver(object):
     def check_random_state(seed):
       if isinstance(seed, (int, np.integer)) and not isinstance(seed, bool):
         rs = SimRandomState(int(seed))
+        rs.keep_values = obs.keep_values
         obs.created.append(rs)
         return rs
       return orig(seed)
